@@ -100,8 +100,14 @@ def late_additions():
     computes 4096 / size_of::<T>() = 0 there and clamps the capacity to 1 - the only types on which that
     clamp is observable."""
     u8, u64 = P('u8'), P('u64')
-    return [seq('vec', arr(4097, u8)), seq('vec', arr(4096, u8)), seq('deque', arr(513, u64)),
-            seq('list', arr(4097, u8)), mapk('btreemap', u8, arr(5000, u8)), seq('hashset', arr(4100, u8))]
+    big = [seq('vec', arr(4097, u8)), seq('vec', arr(4096, u8)), seq('deque', arr(513, u64)),
+           seq('list', arr(4097, u8)), mapk('btreemap', u8, arr(5000, u8)), seq('hashset', arr(4100, u8))]
+    # keys behind Rc / Arc / Cow / Box<str> (key_ok of the model covers them since they order and hash like their contents)
+    st = ('text', 'str')
+    keys = [mapk('btreemap', wrap('rc', st), u8), seq('hashset', wrap('arc', P('u32'))), seq('btreeset', wrap('box', st)),
+            mapk('hashmap', wrap('cow', st), P('u16')), seq('btreeset', wrap('rc', seq('vec', P('i16')))),
+            mapk('hashmap', wrap('arc', tup(P('i8'), ('text', 'string'))), seq('vec', u8))]
+    return big + keys
 
 
 def catalogue_types():
